@@ -517,7 +517,9 @@ func c13cWorker(s *Storage, g int, r *rand.Rand, keys []c13cKeySpec, nops int, b
 }
 
 type c13cHistStats struct {
-	overlapping int64
+	illegal      map[string]bool
+	checkerSpent time.Duration
+	overlapping  int64
 	ops         int64
 	pairs       map[string]struct{}
 	counts      map[string]int64
@@ -605,8 +607,17 @@ func c13RunConcHistory(run *vk.Run, hidx int, r *rand.Rand, keys []c13cKeySpec, 
 		if panicked {
 			continue
 		}
+		// Refuting an illegal history is the expensive case. Once a family has a recorded
+		// violation, or the tier's checking budget is spent, later histories of it are
+		// executed (panics, crashes, races still count) but not checked again; the floor on
+		// key_histories_checked turns that into "inconclusive" if nothing else was found.
+		if agg.illegal[ks.Profile] || agg.checkerSpent > c13cCheckBudget(run) {
+			run.Count("key_histories_not_checked_after_violation_or_budget", 1)
+			continue
+		}
 		t0 := time.Now()
 		res := porcupine.CheckOperationsTimeout(c13cModel, ops, c13cCheckTimeout(run))
+		agg.checkerSpent += time.Since(t0)
 		run.Count("checker_ms_total", time.Since(t0).Milliseconds())
 		run.Max("checker_ms_max", time.Since(t0).Milliseconds())
 		switch res {
@@ -616,6 +627,7 @@ func c13RunConcHistory(run *vk.Run, hidx int, r *rand.Rand, keys []c13cKeySpec, 
 			run.Count("checker_timeout_unknown", 1)
 		case porcupine.Illegal:
 			run.Count("key_histories_not_linearizable", 1)
+			agg.illegal[ks.Profile] = true
 			run.Violation("C13:nonlinearizable|model="+ks.Profile, map[string]any{
 				"history": hidx, "goroutines": ng, "key": ks.Key, "ops_on_key": len(recs),
 				"note":    "no sequential order of these completed operations, consistent with their call/return order, is allowed by the " + ks.Profile + " specification (ttl in {0, 1h}: nothing may expire)",
@@ -633,6 +645,13 @@ func c13cCheckTimeout(run *vk.Run) time.Duration {
 		return 20 * time.Second
 	}
 	return 60 * time.Second
+}
+
+func c13cCheckBudget(run *vk.Run) time.Duration {
+	if run.Thorough() {
+		return 8 * time.Minute
+	}
+	return 40 * time.Second
 }
 
 func c13cBudget(run *vk.Run, quick, thorough int) int {
@@ -672,7 +691,7 @@ func TestVerifC13Concurrent(t *testing.T) {
 		{{"ka", 'l', "list"}, {"kb", 'c', "counter"}},
 		{{"ka", 'r', "setnx"}, {"kb", 'r', "cas"}},
 	}
-	agg := &c13cHistStats{pairs: map[string]struct{}{}, counts: map[string]int64{}}
+	agg := &c13cHistStats{pairs: map[string]struct{}{}, counts: map[string]int64{}, illegal: map[string]bool{}}
 	for h := 0; h < nh; h++ {
 		keys := combos[h%len(combos)]
 		run.Case(fmt.Sprintf("conc|%s+%s", keys[0].Profile, keys[1].Profile), map[string]any{"history": h})
@@ -700,7 +719,7 @@ func TestVerifC13ConcurrentHash(t *testing.T) {
 	nh := c13cBudget(run, 60, 2000)
 	r := run.Rand("conc-hash")
 	keys := []c13cKeySpec{{"ha", 'h', "hash"}, {"hb", 'h', "hash"}}
-	agg := &c13cHistStats{pairs: map[string]struct{}{}, counts: map[string]int64{}}
+	agg := &c13cHistStats{pairs: map[string]struct{}{}, counts: map[string]int64{}, illegal: map[string]bool{}}
 	for h := 0; h < nh; h++ {
 		run.Case("conc|hash+hash", map[string]any{"history": h})
 		c13RunConcHistory(run, h, rand.New(rand.NewSource(r.Int63())), keys, agg)
